@@ -316,7 +316,7 @@ func (*Fsrv) Walk(req *SrvReq) {
 			wqids[i] = f.Qid
 			continue
 		}
-		if (wqids[i].Type & QTDIR) > 0 {
+		if (f.Mode & DMDIR) != 0 {
 			if !f.CheckPerm(req.Fid.User, DMEXEC) {
 				break
 			}
